@@ -1,14 +1,38 @@
 package util
 
 import (
+	"bytes"
 	"context"
-	"errors"
 	"fmt"
 	"github.com/markusressel/fan2go/internal/ui"
 	"os/exec"
 	"strings"
 	"time"
 )
+
+// maxCmdOutputSize is the maximum amount of output (per stream) that is kept from an external command
+const maxCmdOutputSize = 1024 * 1024
+
+// cappedBuffer is an io.Writer that keeps the first [limit] bytes and discards the rest
+type cappedBuffer struct {
+	buf       bytes.Buffer
+	limit     int
+	truncated bool
+}
+
+func (b *cappedBuffer) Write(p []byte) (int, error) {
+	room := b.limit - b.buf.Len()
+	if len(p) > room {
+		b.truncated = true
+		if room > 0 {
+			b.buf.Write(p[:room])
+		}
+	} else {
+		b.buf.Write(p)
+	}
+	// always report success, the command must not be blocked or killed by a full buffer
+	return len(p), nil
+}
 
 func SafeCmdExecution(executable string, args []string, timeout time.Duration) (string, error) {
 	if _, err := CheckFilePermissionsForExecution(executable); err != nil {
@@ -21,7 +45,13 @@ func SafeCmdExecution(executable string, args []string, timeout time.Duration) (
 	cmd := exec.CommandContext(ctx, executable, args...)
 	// don't wait (potentially forever) for child processes of the command that keep its output open
 	cmd.WaitDelay = 250 * time.Millisecond
-	out, err := cmd.Output()
+	// never buffer more than maxCmdOutputSize of output, a command that keeps writing until
+	// it is killed would otherwise eat gigabytes of memory (and time) within its timeout
+	stdout := &cappedBuffer{limit: maxCmdOutputSize}
+	stderr := &cappedBuffer{limit: maxCmdOutputSize}
+	cmd.Stdout = stdout
+	cmd.Stderr = stderr
+	err := cmd.Run()
 
 	if ctx.Err() == context.DeadlineExceeded {
 		ui.Warning("Command timed out: %s", executable)
@@ -33,16 +63,17 @@ func SafeCmdExecution(executable string, args []string, timeout time.Duration) (
 
 	if err != nil {
 		// not every error is an ExitError, f.ex. when the command could not be started at all
-		stderr := ""
-		var exitError *exec.ExitError
-		if errors.As(err, &exitError) {
-			stderr = string(exitError.Stderr)
-		}
-		ui.Warning("Command failed to execute: %s: %v %s", executable, err, stderr)
+		ui.Warning("Command failed to execute: %s: %v %s", executable, err, stderr.buf.String())
 		return "", err
 	}
 
-	strout := string(out)
+	if stdout.truncated {
+		err = fmt.Errorf("output of %s exceeds %d bytes", executable, maxCmdOutputSize)
+		ui.Warning("Command failed to execute: %v", err)
+		return "", err
+	}
+
+	strout := stdout.buf.String()
 	strout = strings.Trim(strout, "\n")
 
 	return strout, nil
